@@ -1,9 +1,23 @@
 //! Model-checking harness for the cascette-rs properties C01–C20 (see /verif/DESIGN.md).
 #![allow(clippy::all)]
 
+pub mod alloc;
 pub mod crash;
+pub mod enumx;
 pub mod props;
 pub mod report;
 pub mod sched;
 pub mod seq;
 pub mod util;
+
+/// MD5 via the `md5` crate (not code under test) for harness-side fix-ups.
+pub fn refmd5(data: &[u8]) -> [u8; 16] {
+    md5::compute(data).0
+}
+
+pub fn sha256_hex(data: &[u8]) -> String {
+    use sha2::Digest;
+    let mut h = sha2::Sha256::new();
+    h.update(data);
+    format!("{:x}", h.finalize())
+}
